@@ -518,6 +518,7 @@ def run(ctx):
                    "ties in distance are accepted (distance comparison, not identity)",
                    "the cell of a point is computed from the index's public xmin/ymin/bin_size_*"]
     coverage["rule"] += ("; 225 one-path sets on decimal (tenths) coordinates x 124 queries x bins 1, 2; 'at least as close' judged with a relative allowance of 2^-46 on squared distances")
+    coverage["rule"] += ('; the large layouts also with 1 and 2 bins per side')
     return {"part": part, "coverage": coverage, "assumptions": assumptions}
 
 
